@@ -60,6 +60,10 @@ func (c *WebsocketNetConn) Read(bs []byte) (count int, err error) {
 	for len(c.bufferedMsg) == 0 {
 		msgType, msg, err := c.ReadMessage()
 		if err != nil {
+			if websocket.IsCloseError(err, websocket.CloseNormalClosure) {
+				// The peer ended the stream it was writing (see CloseWrite).
+				return 0, io.EOF
+			}
 			return 0, err
 		}
 		if msgType != websocket.TextMessage {
@@ -116,6 +120,32 @@ func CloseWrite(conn net.Conn) {
 	conn.Close()
 }
 
+// Relay copies data in both directions between the two given connections and
+// returns once both directions have ended.
+//
+// The clean end of one direction is passed on to the other connection as the
+// end of the data written to it, while the opposite direction stays usable. If
+// a direction fails instead (either of the connections is broken), the data
+// that is still in flight can no longer be delivered, so both connections are
+// closed; otherwise the opposite direction could block forever writing to a
+// connection that nobody reads from anymore.
+func Relay(a, b net.Conn) {
+	var wg sync.WaitGroup
+	wg.Add(2)
+	pipe := func(dst, src net.Conn) {
+		defer wg.Done()
+		if _, err := io.Copy(dst, src); err != nil {
+			a.Close()
+			b.Close()
+			return
+		}
+		CloseWrite(dst)
+	}
+	go pipe(a, b)
+	go pipe(b, a)
+	wg.Wait()
+}
+
 // DialWebsocket establishes a connection with the given server using websocket as the
 // underlying transport layer.
 func DialWebsocket(ctx context.Context, backendURL *url.URL, h http.Header) (net.Conn, error) {
@@ -159,18 +189,6 @@ func Handler(backendPort int, passthroughHandler http.Handler) http.Handler {
 			return
 		}
 		defer backendConn.Close()
-		var wg sync.WaitGroup
-		wg.Add(2)
-		go func() {
-			defer wg.Done()
-			io.Copy(backendConn, frontendConn)
-			CloseWrite(backendConn)
-		}()
-		go func() {
-			defer wg.Done()
-			io.Copy(frontendConn, backendConn)
-			CloseWrite(frontendConn)
-		}()
-		wg.Wait()
+		Relay(backendConn, frontendConn)
 	})
 }
